@@ -399,6 +399,18 @@ class Check:
 
     # ------------------------------------------------------------------ finish
     def finish(self) -> int:
+        # Safety net for the verdict rule of DESIGN section 4: a proof obligation that no longer checks, or a
+        # model/implementation disagreement, always yields a VIOLATION — even when the property module found only
+        # failing inputs that are listed as known findings (those do not explain the break).
+        broken = [o["name"] for o in self.obligations if not o["ok"]]
+        if (broken or self.mismatches) and not self.violations:
+            self.violation(
+                f"{self.pid}:unproved",
+                f"{self.pid} theorems or the model/implementation correspondence no longer check "
+                f"({len(broken)} broken obligation(s), {len(self.mismatches)} mismatch(es)) and no unlisted failing input was found",
+                {"broken_obligations": broken[:20], "mismatches": self.mismatches[:5]},
+                found_input=False,
+            )
         wall = time.time() - self.t0
         n_ob = len(self.obligations)
         n_ok = sum(1 for o in self.obligations if o["ok"])
